@@ -274,3 +274,19 @@ package store
 //@   ghost update @af.Error: applyOK = (result == nil)
 //@   assert @s.strongReadTerm.Store: [strong-term] applyCalled && applyOK && arg0 == rt
 //@   assert @af.Response: [results-after-apply] applyCalled && applyOK
+//
+// ---- C17: read-only classification ----------------------------------------------------------------
+// RORWCount: every non-empty statement is counted exactly once; it is counted read-only only if
+// it is an EXPLAIN or the database said (true, nil) for it.
+//@ func (*Store) RORWCount
+//@   safe
+//@   requires [built] s != nil && eqr != nil
+//@   ghost var cnt int = 0
+//@   ghost var roOK bool = false
+//@   ghost update @def:sql: cnt = cnt + ite(sql != "", 1, 0)
+//@   ghost update @def:sql: roOK = false
+//@   ghost update @s.db.StmtReadOnly: roOK = (result0 && result1 == nil)
+//@   assert @s.db.StmtReadOnly: [classify-own-text] arg0 == sql
+//@   assert @inc:nRO: [ro-only-if] stmt.SqlExplain || roOK
+//@   loop 1 invariant [all-counted] nRO + nRW == cnt && nRO >= 0 && nRW >= 0
+//@   ensures [all-counted] nRO + nRW == cnt
